@@ -110,6 +110,23 @@ def dense_payload(node):
             return out.real.astype(DT[dt])
         out = (V * lam) @ np.linalg.inv(V)
         return out.astype(DT[dt])
+    if g == "zeros":  # given eigenvalues and an *exact* zero pattern (eigenvectors with exactly zero coordinates)
+        lam = np.array([as_scalar(e) for e in node["eigs"]])
+        pat = node["pattern"]
+        wdt = np.complex128 if cplx else np.float64
+        if pat in ("lower", "upper"):
+            a = 0.3 * rng.standard_normal((n, n)) + (0.3j * rng.standard_normal((n, n)) if cplx else 0)
+            a = (np.tril(a, -1) if pat == "lower" else np.triu(a, 1)).astype(wdt)
+            a[np.diag_indices(n)] = lam if cplx else lam.real
+            return a.astype(DT[dt])
+        # "absorbing": the first row is a multiple of e_1 (every eigenvector but one has first coordinate exactly 0)
+        a = np.zeros((n, n), dtype=wdt)
+        a[0, 0] = lam[0] if cplx else lam[0].real
+        if n > 1:
+            sub = dict(node, shape=[n - 1, n - 1], gen="general", eigs=node["eigs"][1:])
+            a[1:, 1:] = dense_payload(sub)
+            a[1:, 0] = 0.3 * rng.standard_normal(n - 1)
+        return a.astype(DT[dt])
     if g == "svals":  # U diag(s) V^H with given singular values
         s = np.asarray(node["svals"], dtype=float)
         U = haar(rng, m, cplx)[:, :len(s)]
